@@ -142,8 +142,8 @@ func GenR(rng *Rng, prop string, tier string) *RScript {
 		k.BarrierYield = true
 		nP = rng.Range(1, 3)
 	case "C16":
-		nP = rng.Range(2, 4)
-		nColl = rng.Range(2, 4)
+		nP = rng.Range(1, 4)
+		nColl = rng.Range(2, 5)
 	}
 	srcPrefix := Pick(rng, []string{"by-dev-rootcoord-dml", "src-dml"})
 	tgtPrefix := Pick(rng, []string{"by-dev-rootcoord-dml", "tgt-rootcoord-dml", "a-dml"})
@@ -220,6 +220,9 @@ func GenR(rng *Rng, prop string, tier string) *RScript {
 		if prop == "C04" || prop == "C20" {
 			nShard = rng.Range(1, min(3, nP))
 		}
+		if prop == "C16" {
+			nShard = rng.Range(1, min(2, nP))
+		}
 		// source placement: a subset of distinct pchannels
 		idx := make([]int, nP)
 		for i := range idx {
@@ -261,19 +264,17 @@ func GenR(rng *Rng, prop string, tier string) *RScript {
 			tgtIdx = []int{Pick(rng, others)}
 			crossedAfter = alignedOn[si]
 		} else if prop == "C16" {
-			// unequal counts: the downstream places shards on its own channels round-robin
-			off := rng.Intn(nT)
-			seen := map[int]bool{}
-			for i := 0; i < nShard; i++ {
-				j := (off + i) % nT
-				if seen[j] {
-					break
-				}
-				seen[j] = true
-				tgtIdx = append(tgtIdx, j)
+			// unequal channel counts: the downstream places the collection's shards on its own channels
+			if nShard > nT {
+				nShard = nT
+				srcIdx = srcIdx[:nShard]
 			}
-			srcIdx = srcIdx[:len(tgtIdx)]
-			nShard = len(tgtIdx)
+			t := make([]int, nT)
+			for i := range t {
+				t[i] = i
+			}
+			Shuffle(rng, t)
+			tgtIdx = append([]int(nil), t[:nShard]...)
 			sort.Ints(tgtIdx)
 		} else {
 			tgtIdx = srcIdx
@@ -334,6 +335,12 @@ func GenR(rng *Rng, prop string, tier string) *RScript {
 	nRounds := rng.Range(4, 10)
 	if tier == "thorough" {
 		nRounds = rng.Range(4, 16)
+	}
+	if prop == "C16" {
+		// the assignment table depends on the start offers and the wait/forward goroutines only; with
+		// unequal counts several handlers share a downstream channel and forwardMsg picks among them in
+		// Go map iteration order, which the simulator does not own - so no data flows in this check
+		nRounds = 0
 	}
 	dropBias := 8
 	if prop == "C04" || prop == "C20" {
